@@ -1,3 +1,237 @@
-import RlibModel.Model.Common
-/-! Line-protocol driver for engine `writer` (stub: to be written by the engine's author). -/
-def main : IO Unit := pure ()
+import RlibModel.Model.Writer
+/-!
+Line-protocol driver for engine `writer` (property C09).
+
+Case line:  `w buf=<BUF> dbg=<0|1|*> k=<n> j=<n> rt=<0|1> rc=<n> ; op ; op ; …`
+  * `buf`  = `Writer::BUF_SIZE` extracted from the source, `dbg` = profile of the harness binary
+    (`*` = unknown: the number of flushes is then not reported), `k`, `j`, `rc` = sink / read-back
+    delivery parameters (the model does not depend on them: std's `write_all` is trusted),
+    `rt=1` = also read the produced text back.
+  * ops: `W <val>` = `writer.write(&val)`, `C <code point>` = `write_char`, `F` = `flush()` followed
+    by an observation of the sink, `O <n> <val>*n` = `out!(…)`, `L <n> <val>*n` = `outln!(…)`;
+    after the last op the writer is dropped and the sink observed again.
+  * val (prefix notation): `i32:-5` (any of the 12 integer types), `s:<kind>:<len>:<seed>` a pattern
+    string passed as `&str` (`S:` = as `String`), `x:<hex>` / `X:<hex>` a literal string,
+    `v <n> <val>*n` a `Vec`, `t <n> <val>*n` a tuple (2 ≤ n ≤ 8).
+
+Answer: `M <view> fl=<flushes> | V <view> | S <view according to the spec>` with
+`view = obs=[len:fnv,…] drop=len:fnv[:hex] fmt=ok rt=ok|na|bad`.
+-/
+open Rlib Rlib.Decimal Rlib.Writer
+
+/-- One byte of a pattern string (the harness computes the same). -/
+def patByte (kind seed len i : Nat) : UInt8 :=
+  match kind with
+  | 0 => UInt8.ofNat (33 + (seed + i * 7) % 94)
+  | 1 =>
+    let x := (seed + i * 11) % 97
+    if x < 94 then UInt8.ofNat (33 + x) else if x = 94 then 32 else if x = 95 then 10 else 9
+  | _ =>
+    -- two-byte UTF-8 characters U+00E0..U+00EF, preceded by one `x` when `len` is odd
+    if len % 2 = 1 ∧ i = 0 then 120
+    else
+      let i' := i - len % 2
+      if i' % 2 = 0 then 0xC3 else UInt8.ofNat (0xA0 + (seed + i' / 2) % 16)
+
+def patLoop (kind seed len i : Nat) (acc : ByteArray) : ByteArray :=
+  if i < len then patLoop kind seed len (i + 1) (acc.push (patByte kind seed len i)) else acc
+termination_by len - i
+
+def patBytes (kind seed len : Nat) : ByteArray := patLoop kind seed len 0 (ByteArray.emptyWithCapacity len)
+
+def parseHexBytes (cs : List Char) (acc : ByteArray) : Option ByteArray :=
+  match cs with
+  | [] => some acc
+  | [_] => none
+  | a :: b :: rest =>
+    match hexDigit? a, hexDigit? b with
+    | some x, some y => parseHexBytes rest (acc.push (UInt8.ofNat (x * 16 + y)))
+    | _, _ => none
+
+/-- Minimal UTF-8 validity check (the harness rejects invalid literals too). Only what the
+    generators produce is accepted: ASCII and two-byte sequences. -/
+def utf8ok : List UInt8 → Bool
+  | [] => true
+  | b :: rest =>
+    if b < 0x80 then utf8ok rest
+    else if 0xC2 ≤ b ∧ b ≤ 0xDF then
+      match rest with
+      | c :: rest' => (0x80 ≤ c ∧ c ≤ 0xBF) && utf8ok rest'
+      | [] => false
+    else false
+
+def parseScalar (tok : String) : Option Val :=
+  match tok.splitOn ":" with
+  | [ty, v] =>
+    if ty = "x" ∨ ty = "X" then
+      match parseHexBytes v.toList ByteArray.empty with
+      | some bs => if utf8ok bs.data.toList then some (.str bs) else none
+      | none => none
+    else
+      match IntTy.parse? ty, parseInt? v with
+      | some t, some z => if t.fits z then some (.int t z) else none
+      | _, _ => none
+  | [ty, k, l, s] =>
+    if ty = "s" ∨ ty = "S" then
+      match parseNat? k, parseNat? l, parseNat? s with
+      | some k, some l, some s => if k ≤ 2 then some (.str (patBytes k s l)) else none
+      | _, _, _ => none
+    else none
+  | _ => none
+
+mutual
+/-- Prefix-notation value parser; `fuel` bounds the nesting depth. -/
+def parseVal (fuel : Nat) (ts : List String) : Option (Val × List String) :=
+  match fuel, ts with
+  | 0, _ => none
+  | _, [] => none
+  | fuel + 1, t :: rest =>
+    if t = "v" ∨ t = "t" then
+      match rest with
+      | n :: rest' =>
+        match parseNat? n with
+        | some n =>
+          if t = "t" ∧ (n < 2 ∨ 8 < n) then none else
+          match parseVals fuel n rest' with
+          | some (xs, rest'') => some (.seq (t = "t") xs, rest'')
+          | none => none
+        | none => none
+      | [] => none
+    else
+      match parseScalar t with
+      | some v => some (v, rest)
+      | none => none
+def parseVals (fuel : Nat) (n : Nat) (ts : List String) : Option (List Val × List String) :=
+  match fuel, n with
+  | 0, _ => none
+  | _, 0 => some ([], ts)
+  | fuel + 1, n + 1 =>
+    match parseVal fuel ts with
+    | some (v, rest) =>
+      match parseVals fuel n rest with
+      | some (vs, rest') => some (v :: vs, rest')
+      | none => none
+    | none => none
+end
+
+def parseOp (s : String) : Option Op :=
+  match tokens s with
+  | ["F"] => some .flush
+  | ["C", n] =>
+    match parseNat? n with
+    | some n => if n < 0xD800 ∨ (0xE000 ≤ n ∧ n < 0x110000) then some (.wchar n) else none
+    | none => none
+  | "W" :: rest =>
+    match parseVal 400 rest with
+    | some (v, []) => some (.write v)
+    | _ => none
+  | "O" :: n :: rest =>
+    match parseNat? n with
+    | some n =>
+      if n = 0 then none else
+      match parseVals 400 n rest with
+      | some (vs, []) => some (.out false vs)
+      | _ => none
+    | none => none
+  | "L" :: n :: rest =>
+    match parseNat? n with
+    | some n =>
+      match parseVals 400 n rest with
+      | some (vs, []) => some (.out true vs)
+      | _ => none
+    | none => none
+  | _ => none
+
+structure Hdr where
+  buf : Nat
+  dbg : Option Bool
+  rt : Bool
+
+def hdrField (ts : List String) (key : String) : Option String :=
+  ts.findSome? (fun t => match t.splitOn "=" with
+    | [k, v] => if k = key then some v else none
+    | _ => none)
+
+def parseHdr (s : String) : Option Hdr :=
+  match tokens s with
+  | "w" :: fs =>
+    match (hdrField fs "buf").bind parseNat?, hdrField fs "dbg", hdrField fs "rt" with
+    | some buf, some d, some rt =>
+      let dbg : Option (Option Bool) :=
+        if d = "0" then some (some false) else if d = "1" then some (some true) else if d = "*" then some none else none
+      match dbg with
+      | some dbg => some ⟨buf, dbg, rt = "1"⟩
+      | none => none
+    | _, _, _ => none
+  | _ => none
+
+def fnv (bs : ByteArray) : UInt64 :=
+  bs.foldl (fun h b => (h ^^^ b.toUInt64) * 0x100000001b3) 0xcbf29ce484222325
+
+def hexOfBytes (bs : ByteArray) : String :=
+  String.join (bs.data.toList.map (fun b => toHex b.toNat 2))
+
+def obsStr (bs : ByteArray) : String := s!"{bs.size}:{toHex (fnv bs).toNat 16}"
+
+def dropStr (bs : ByteArray) : String :=
+  if bs.size ≤ 32 then s!"{obsStr bs}:{hexOfBytes bs}" else obsStr bs
+
+/-- Read-back verdict on a delivered text. -/
+def rtStr (rt : Bool) (ops : List Op) (text : ByteArray) : String :=
+  if !rt then "na" else
+  let ls := opsLeaves ops
+  let toks := tokenize (txt text)
+  if toks == ls.map leafText && Val.wordyList ls then
+    if (ls.zip toks).all (fun p => leafReadsBack p.1 p.2) then "ok" else "bad"
+  else "na"
+
+def viewStr (obs : List String) (final : ByteArray) (rt : String) : String :=
+  s!"obs=[{",".intercalate obs}] drop={dropStr final} fmt=ok rt={rt}"
+
+/-- Model run: returns the observations at every `F` and the final state. -/
+def modelRun (c : Cfg) : List Op → WState → List String → Except Panic (List String × WState)
+  | [], s, obs => .ok (obs.reverse, s)
+  | o :: os, s, obs =>
+    match runOp c s o with
+    | .error e => .error e
+    | .ok s' =>
+      match o with
+      | .flush => modelRun c os s' (obsStr s'.sink :: obs)
+      | _ => modelRun c os s' obs
+
+/-- Spec run: the expected sink contents at every `F` and at the end. -/
+def specRun : List Op → ByteArray → List String → List String × ByteArray
+  | [], acc, obs => (obs.reverse, acc)
+  | o :: os, acc, obs =>
+    let acc := acc ++ specOp o
+    match o with
+    | .flush => specRun os acc (obsStr acc :: obs)
+    | _ => specRun os acc obs
+
+def opInDomain : Op → Bool
+  | .wchar code => code < 128          -- the property speaks about ASCII characters
+  | _ => true
+
+def handle (line : String) : String :=
+  match splitOps line with
+  | [] => badLine line
+  | hdr :: opss =>
+    match parseHdr hdr, (opss.filter (· ≠ "")).mapM parseOp with
+    | some h, some ops =>
+      if h.buf = 0 then "M INVALID | V INVALID | S any" else
+      let c : Cfg := ⟨h.buf, h.dbg.getD false⟩
+      let (sobs, stext) := specRun ops ByteArray.empty []
+      let inDom := ops.all opInDomain ∧ Op.validAll ops ∧ 39 ≤ h.buf
+      let sview := if inDom then viewStr sobs stext (rtStr h.rt ops stext) else "any"
+      match modelRun c ops WState.init [] with
+      | .error e => answer e.toString sview
+      | .ok (obs, s) =>
+        let s' := drop s
+        let v := viewStr obs s'.sink (rtStr h.rt ops s'.sink)
+        let fl := match h.dbg with
+          | some _ => toString s'.flushes
+          | none => "*"
+        answer3 s!"{v} fl={fl}" v sview
+    | _, _ => "M INVALID | V INVALID | S any"
+
+def main : IO Unit := driverMain handle
